@@ -15,27 +15,28 @@ Section Oracles.
   Variable mredir : str -> str -> option verdict.
   Variable cdres : str -> str -> str.
   Variable injrisk : ctx -> list str -> bool.
-  Notation ev := (ev simple astr mredir cdres injrisk).
-  Notation walk := (walk simple astr mredir cdres injrisk).
-  Notation analyze_nodes := (analyze_nodes simple astr mredir cdres injrisk).
+  Variable rulematch : ctx -> list str -> bool.
+  Notation ev := (ev simple astr mredir cdres injrisk rulematch).
+  Notation walk := (walk simple astr mredir cdres injrisk rulematch).
+  Notation analyze_nodes := (analyze_nodes simple astr mredir cdres injrisk rulematch).
 
   (* one step, any role: an approved node has every child that must be analysed approved *)
   Theorem C01_step : forall r t c, ok (field r (ev t) c) ->
     forall r' d, In (r', d) (sub r t) ->
     exists c', same_mode c c' /\ ok (field r' (ev d) c').
-  Proof. exact (step_any simple astr mredir cdres injrisk). Qed.
+  Proof. exact (step_any simple astr mredir cdres injrisk rulematch). Qed.
 
   (* any depth: every node reached from an approved node is approved when analysed as a node
      (same remote flag; the directory may differ after a cd) *)
   Theorem C01_walker_complete : forall c t, walk c t = Allow ->
     forall n d, In (RNode, d) (reach_fuel n RNode t) -> exists c', snd c' = snd c /\ walk c' d = Allow.
-  Proof. exact (approved_all_nodes simple astr mredir cdres injrisk). Qed.
+  Proof. exact (approved_all_nodes simple astr mredir cdres injrisk rulematch). Qed.
 
   (* every raw string bash expands at a reached position was delimitable and its substitutions approved *)
   Theorem C01_raw_positions : forall c t, walk c t = Allow ->
     forall n r d s, In (r, d) (reach_fuel n RNode t) -> In s (raw_positions r d) ->
     exists c', snd c' = snd c /\ raw_ok astr c' s.
-  Proof. exact (approved_all_raw simple astr mredir cdres injrisk). Qed.
+  Proof. exact (approved_all_raw simple astr mredir cdres injrisk rulematch). Qed.
 
   Theorem C01_raw_ok_meaning : forall c s, raw_ok astr c s ->
     scan_raw s <> RComplex /\ forall l, scan_raw s = RSubs l -> forall u, In u l -> astr c u = Allow.
@@ -47,13 +48,13 @@ Section Oracles.
     exists ns, nodes = Some ns /\ ns <> [] /\
       forall t, In t ns -> forall n d, In (RNode, d) (reach_fuel n RNode t) ->
         exists c', snd c' = snd c /\ walk c' d = Allow.
-  Proof. exact (approved_program simple astr mredir cdres injrisk). Qed.
+  Proof. exact (approved_program simple astr mredir cdres injrisk rulematch). Qed.
 
   Theorem C01_parse_failclosed : forall c, analyze_nodes c None = Ask /\ analyze_nodes c (Some []) = Ask.
-  Proof. exact (parse_failclosed simple astr mredir cdres injrisk). Qed.
+  Proof. exact (parse_failclosed simple astr mredir cdres injrisk rulematch). Qed.
 
   Theorem C01_unknown_kind : forall c k ss fs ks, mem_str k known_kinds = false -> walk c (T k ss fs ks) = Ask.
-  Proof. exact (walk_unknown simple astr mredir cdres injrisk). Qed.
+  Proof. exact (walk_unknown simple astr mredir cdres injrisk rulematch). Qed.
 End Oracles.
 Print Assumptions C01_step.
 Print Assumptions C01_walker_complete.
@@ -95,5 +96,5 @@ Example C01_example :
                                                       ($"right", T $"cmdsub" [] [] [($"command", inner)])])])]] in
   In (RNode, inner) (reach_fuel 6%nat RNode t) /\
   walk (fun _ ws => if mem_str (hd [] ws) [$"ls"; $"echo"] then Allow else Ask)
-       (fun _ _ => Ask) (fun _ _ => None) (fun _ x => x) (fun _ _ => false) ([47], false) t = Allow.
+       (fun _ _ => Ask) (fun _ _ => None) (fun _ x => x) (fun _ _ => false) (fun _ _ => false) ([47], false) t = Allow.
 Proof. vm_compute. split; [tauto|reflexivity]. Qed.
